@@ -78,7 +78,7 @@ def secondary(rnd, plain=False):
 
     if plain:
         return {"size": (8, 4), "cdf": 0, "bits": "8", "wavelet": 4, "wavelet_ho": 4, "depth": 1, "depth_ho": 0, "slices": (2, 1), "picture_bytes": 24, "qm": None}
-    size, slices = rnd.choice([((8, 4), (2, 1)), ((8, 4), (2, 1)), ((16, 8), (2, 2)), ((12, 6), (3, 1)), ((12, 8), (3, 2))])
+    size, slices = rnd.choice([((8, 4), (2, 1)), ((8, 4), (2, 1)), ((16, 8), (2, 2)), ((12, 4), (3, 1)), ((12, 8), (3, 2))])
     if rnd.random() < 0.25:
         # asymmetric transform with a custom quantisation matrix (no default exists)
         depth, depth_ho = 1, rnd.choice([1, 2])
@@ -296,7 +296,7 @@ def run(ctx):
         prof = "ld" if i % 2 == 0 else "hq"
         ab = {"profile": prof, "lossless": False, "fragments": i % 7 == 3, "fields": i % 5 == 4}
         # two-dimensional grids dominate: only they can tell an x/y mix-up from the right thing
-        size, slices = rnd.choice([((8, 4), (2, 1)), ((16, 8), (2, 2)), ((16, 8), (2, 2)), ((12, 6), (3, 1)), ((12, 8), (3, 2)), ((12, 8), (3, 2)), ((8, 12), (2, 3)), ((16, 4), (4, 1))])
+        size, slices = rnd.choice([((8, 4), (2, 1)), ((16, 8), (2, 2)), ((16, 8), (2, 2)), ((12, 4), (3, 1)), ((12, 8), (3, 2)), ((12, 8), (3, 2)), ((8, 12), (2, 3)), ((16, 4), (4, 1))])
         nsl = slices[0] * slices[1]
         sec = {"size": size, "cdf": rnd.choice([0, 1, 2]), "bits": rnd.choice(["8", "10"]), "wavelet": 4, "wavelet_ho": 4, "depth": 1, "depth_ho": 0, "slices": slices,
                "picture_bytes": nsl * rnd.choice([8, 12, 16, 33]) + rnd.randrange(0, 2 * nsl), "qm": None}
